@@ -429,7 +429,7 @@ def prop_contracts(pid, explanation):
             if extra:
                 extra(rep, ctx)
             std_assumptions(rep, ctx)
-        rep.explanation = explanation
+        rep.explanation = explanation + '; plus the panic-edge / invariant / exact-cast obligations under its roots and the necessary-condition records it shares with other properties (DESIGN 11.12)'
     return run
 
 
@@ -455,7 +455,7 @@ def prop_tables(pid, fn, explanation):
             if extra:
                 extra(rep, ctx)
             std_assumptions(rep, ctx)
-        rep.explanation = explanation
+        rep.explanation = explanation + '; plus the panic-edge / invariant / exact-cast obligations under its roots and the necessary-condition records it shares with other properties (DESIGN 11.12)'
     return run
 
 
